@@ -275,9 +275,14 @@ func (c *Channel) Invoke(ctx context.Context, method string, req, resp interface
 		select {
 		case r, ok := <-ch:
 			if !ok {
-				// no more messages
+				// no more messages; but frames are abandoned by the server
+				// goroutine once the context is done, so a closed channel
+				// only means "complete" if the context is still live
+				if err := ctx.Err(); err != nil {
+					return internal.TranslateContextError(err)
+				}
 				if !gotResponse {
-					return io.EOF
+					return status.Error(codes.Internal, "server sent neither response message nor error")
 				}
 				return nil
 			}
